@@ -375,6 +375,33 @@ def run(ctx):
                                "diff": next((d for d in (first_diff(x[2], y[2]) for x, y in zip(sb, sa)) if d), None) or ("" if reached else "embedded target keeps %d" % eb)})
                 ctx.count_case(("meta-neighbours", i, how, k))
             else:
+                # copies of the EMBEDDED project and of the MetaModule itself are independent of it in both directions
+                try:
+                    # (a MetaModule that hears its embedded modules: the library echoes a change of the controller whose NUMBER
+                    # equals a mapping's controller field back into the MetaModule)
+                    m2 = api.m.MetaModule()
+                    for k in range(3):
+                        am = m2.project.new_module(api.m.Amplifier)
+                        m2.mappings.values[k].module, m2.mappings.values[k].controller = am.index, 1
+                    m2.user_defined_controllers = 3
+                    m2.update_user_defined_controllers()
+                    if how == "load":
+                        m2 = api.read_sunvox_file(io.BytesIO(api.Synth(m2).read())).module
+                        m2.project.metamodule = m2
+                    ec, mc2 = m2.project.clone(), m2.clone()
+                    for tag, edit_in, watch in (("embedded-clone->original", ec, m2), ("original->embedded-clone", m2.project, ec),
+                                                ("module-clone->original", mc2.project, m2), ("original->module-clone", m2.project, mc2)):
+                        sb, bb, pj0 = digest(watch, spec)
+                        for k in range(3):
+                            cur = int(edit_in.modules[k + 1].volume)
+                            edit_in.modules[k + 1].volume = rnd.choice([v for v in (0, 1, 77, 100) if v != cur])
+                        sa, ba, pj1 = digest(watch, spec)
+                        events.append({"op": "mutate", "kind": "embedded-project-copy:" + tag, "provenance": "MetaModule %s" % how,
+                                       "state_before": sb, "state_after": sa, "bytes_before": bb, "bytes_after": ba, "diff": first_diff(pj0, pj1)})
+                        ctx.count_case(("meta-copies", i, how, tag))
+                except Exception as e:
+                    raised("meta-neighbours%d/%s!copies" % (i, how), "metamodule copies", e, events)
+                    continue
                 traces.append({"id": "meta-neighbours%d/%s" % (i, how), "events": events})
     # every fixture loaded twice; other loads / constructions / clones / bulk pattern edits in between must not show in B
     for name, data in fmt.fixtures():
